@@ -568,6 +568,54 @@ fn judge(run: &Run, kv: &Kv, line: &str, req: &[u8], fusedev: bool, asyncp: bool
     }
 }
 
+/// READ whose file system fails after it has already stored part of the data (no model involved:
+/// the scripted answers of the modelled stream fail before they write).  The client must get a
+/// bare error header: on /dev/fuse one 16-byte record, on virtio-fs a header announcing 16 bytes.
+fn read_fault_probe(cx: &Ctx, r: &mut Prng, out: &mut Out) {
+    let fusedev = r.chance(1, 2);
+    let size = r.range(1, 300) as u32;
+    let plen = r.range(1, size as u64) as usize;
+    let cap = 16 + size as u64 + *r.pick(&[0u64, 1, 8, 64]);
+    let errno = *r.pick(&[5u64, 28, 4, 11]);
+    let unique = r.next() | 1;
+    let mut req = srvgen::header(80, 15, unique, 1, 0, 0, 1, 0);
+    req.extend_from_slice(&7u64.to_le_bytes());
+    req.extend_from_slice(&0u64.to_le_bytes());
+    req.extend_from_slice(&size.to_le_bytes());
+    req.extend_from_slice(&[0u8; 20]);
+    let data: Vec<u8> = (0..plen).map(|i| (i * 31 + 7) as u8).collect();
+    let line = if fusedev {
+        format!("t=fusedev cap={} op=15 vu=0 remap=ok req={} ans=perr errno={} data={}", cap, hex(&req), errno, hex(&data))
+    } else {
+        format!("t=virtio cap={} op=15 vu=0 remap=ok seg=80 wseg={} lay={} req={} ans=perr errno={} data={}", cap, cap, r.below(4), hex(&req), errno, hex(&data))
+    };
+    let kv = parse_kv(&line);
+    let run = run_case(cx, &kv);
+    out.stat("probe:read-fault");
+    let reply = client_reply(&run, fusedev);
+    let want_err = (-(errno as i64)) as i32;
+    let bad = match &reply {
+        None => Some("no reply".to_string()),
+        Some(rp) if rp.len() < 16 => Some(format!("reply of {} bytes", rp.len())),
+        Some(rp) => {
+            let (len, err, uq) = (le32(rp, 0), le32(rp, 4) as i32, le64(rp, 8));
+            if len != 16 || err != want_err || uq != unique || (fusedev && rp.len() != 16) || run.panicked {
+                Some(format!("header len={} error={} unique ok={} record of {} bytes (expected a bare 16-byte header with error {})", len, err, uq == unique, rp.len(), want_err))
+            } else {
+                None
+            }
+        }
+    };
+    if let Some(what) = bad {
+        for p in ["C03", "C01"] {
+            let v = serde_json::json!({"prop": p, "key": format!("{}:read:error-after-partial-data", p), "case": line, "what": what});
+            use std::io::Write;
+            writeln!(out.oracle, "{}", v).unwrap();
+            out.n_oracle += 1;
+        }
+    }
+}
+
 fn run_case_logged(cx: &Ctx, kv: &Kv) -> Run {
     // ScriptFs is owned by the server; its log is extracted through a thread-local tap
     fbrh::scriptfs::TAP.with(|t| t.borrow_mut().clear());
@@ -849,6 +897,9 @@ fn main() {
         let rk = o.rsplit("ret=").next().unwrap_or("").to_string();
         out.stat(&format!("ret:{}", rk.split(':').take(if rk.starts_with("err") { 2 } else { 1 }).collect::<Vec<_>>().join(":")));
         out.case(&line, &o);
+        if !is_async && prop != "C12" && i % 40 == 7 {
+            read_fault_probe(&cx, &mut r, &mut out);
+        }
     }
     out.finish();
 }
